@@ -371,6 +371,81 @@ def c07_defaults(run):
                                 acc.fail(key + " [python]", f"generated class default {getattr(obj, 'default', None)!r} != parsed {E.default!r}")
                 except Exception as e:
                     acc.fail(key + " [python]", f"generated module failed: {type(e).__name__}: {e}")
+        if run.tier != "quick":
+            # thorough: a default (and a description) injected at every sub-schema position of every enumerator document, one
+            # at a time; the multiset of defaults/descriptions of the JSON serialisation of the parsed element must be the
+            # document's own (definitions dereferenced)
+            SUB1 = ("items", "additionalItems", "contains", "not", "additionalProperties", "propertyNames")
+            SUBM = ("properties", "patternProperties", "dependencies", "definitions")
+            SUBL = ("anyOf", "oneOf", "allOf")
+
+            def positions_of(d, path=()):
+                if isinstance(d, dict):
+                    yield path
+                    for k, v in d.items():
+                        if k in SUB1:
+                            if isinstance(v, list):
+                                for i, x in enumerate(v):
+                                    yield from positions_of(x, path + (k, i))
+                            else:
+                                yield from positions_of(v, path + (k,))
+                        elif k in SUBM and isinstance(v, dict):
+                            for kk, x in v.items():
+                                yield from positions_of(x, path + (k, kk))
+                        elif k in SUBL and isinstance(v, list):
+                            for i, x in enumerate(v):
+                                yield from positions_of(x, path + (k, i))
+
+            def collect(d, root, out):
+                if isinstance(d, dict):
+                    if "$ref" in d:
+                        return collect(draft6.resolve(root, d["$ref"]), root, out)
+                    if "default" in d:
+                        out.append(("default", jkey(d["default"])))
+                    if isinstance(d.get("description"), str) and d.get("type") == "object":
+                        out.append(("description", d["description"]))     # C07 speaks of the description of *object* schemas only
+                    for k, v in d.items():
+                        if k in SUB1:
+                            for x in (v if isinstance(v, list) else [v]):
+                                collect(x, root, out)
+                        elif k in ("properties", "patternProperties", "dependencies") and isinstance(v, dict):
+                            for x in v.values():
+                                collect(x, root, out)
+                        elif k in SUBL and isinstance(v, list):
+                            for x in v:
+                                collect(x, root, out)
+                return out
+            lits = schemas.DEFAULTS
+            n = 0
+            for D in schemas.thorough():
+                if not isinstance(D, dict):
+                    continue
+                for pos in list(positions_of(D))[:12]:
+                    n += 1
+                    doc = copy.deepcopy(D)
+                    node = doc
+                    for step in pos:
+                        node = node[step]
+                    if "default" in node or "description" in node:
+                        continue
+                    node["default"] = copy.deepcopy(lits[n % len(lits)])
+                    node["description"] = f"text {n}"
+                    key = f"inject@{'/'.join(map(str, pos)) or '<root>'} in {jkey(D)[:100]}"
+                    acc.case(key)
+                    try:
+                        E = parse_element(copy.deepcopy(doc))
+                        J = serialize_json(E)
+                    except Exception as e:
+                        from statham.schema.exceptions import SchemaParseError, FeatureNotImplementedError
+                        if not isinstance(e, (SchemaParseError, FeatureNotImplementedError)):
+                            acc.fail(key, f"{type(e).__name__}: {str(e)[:100]}")
+                        continue
+                    want = sorted(collect(doc, doc, []))
+                    got = sorted(collect(J, J, [])) if isinstance(J, dict) else []
+                    if want != got:
+                        from checker.finding_classes import _has_colliding_names
+                        acc.fail(key, f"defaults/descriptions of the document {want} != those of the JSON serialisation of the parsed element {got}",
+                                 extra={"tags": ["D10-shape"] if _has_colliding_names(doc) else []})
     finally:
         w.__exit__(None, None, None)
     return acc.result()
